@@ -47,7 +47,7 @@ FromSeedD(cls, seed) ==
 
 (* ---- from_rng / try_from_rng: [ok, gen, src, log] ; log = the calls made: <<ok?, bytes delivered>> ---- *)
 (* slen = seed length; flen = number of bytes from_rng draws (= slen except for class "full")           *)
-MaxDraws == 8       \* bound on the redraw loop explored / accepted (an all-zero source never returns)
+MaxDraws == 4096    \* bound on the redraw loop accepted (an all-zero source never returns)
 RECURSIVE Redraw(_, _, _, _)
 Redraw(src, slen, log, k) ==
   LET r == SrcFill(src, slen) IN
